@@ -447,8 +447,11 @@ class DatasetProcessor:
                 except UnsupportedCompressionFormat:
                     gunzipped_reference = os.path.join(args.output, ref_name)
                     if not os.path.exists(gunzipped_reference) or not self.args.resume:
-                        with open(gunzipped_reference, "w") as outf:
+                        # unpack under a temporary name: an interrupted run must not leave a truncated reference behind
+                        tmp_gunzipped_reference = gunzipped_reference + ".tmp"
+                        with open(tmp_gunzipped_reference, "w") as outf:
                             shutil.copyfileobj(gzip.open(self.args.reference, "rt"), outf)
+                        os.rename(tmp_gunzipped_reference, gunzipped_reference)
                         logger.info("Loading uncompressed reference from " + gunzipped_reference)
                     self.args.reference = gunzipped_reference
                     self.reference_record_dict = Fasta(self.args.reference, indexname=args.fai_file_name)
